@@ -135,10 +135,13 @@ fn neighbourhood(def: &[u8]) -> Vec<Vec<u8>> {
                     k += 1;
                 }
             }
-            for suf in ["", "0", "1", "01", "2", "10", "11", "12", "125"] {
+            for suf in [
+                "", "0", "1", "01", "2", "10", "11", "12", "125", "255", "256", "257", "258", "268", "381", "65535", "65536", "65537", "65538", "65548", "131073", "4294967296", "4294967297", "4294967298",
+                "18446744073709551616", "18446744073709551617", "18446744073709551618", "18446744073709551628",
+            ] {
                 let mut c = s.clone();
                 c.extend_from_slice(suf.as_bytes());
-                if c.len() <= 14 {
+                if c.len() <= 40 {
                     out.push(c);
                 }
             }
